@@ -448,7 +448,7 @@ End Run.
    alg   ::= (0) | (1 (draw ...)) | (6 (draw ...)) | (2 alg hashmod auto maxdup maxatt) | (3 alg (size?) upd ((child ...) ...))
    upd   ::= (0) | (1 n) | (2 n) | (3) | (4 ((pid ...) ...)) | (5 a b)
    out   ::= (snapshot ...)            one per crash point (before each event, and after the last)
-   snapshot ::= (live recovered live_continuation recovered_continuation (recovered_with_undelivered_reward?) (recovered_from_proposal_time_metadata?))
+   snapshot ::= (live recovered live_continuation recovered_continuation (recovered_with_undelivered_reward?) (recovered_from_proposal_time_metadata?) (recovered_in_two_parts?))
    obs   ::= (np nf (dna ...) ((key ((reward?) ...)) ...) (extra ...) (obs ...))
    dna   ::= (val (pid?) (gid?) (ini?) (fsn?) (fit?) (key?) skipped) *)
 Local Open Scope Z_scope.
@@ -552,18 +552,27 @@ Section Sim.
     if existsb (fun e => match snd e with Some _ => true | None => false end) h0
     then [e_obs (obs g (recovered g h0)); ebool (hrk_b (r_hist g r) h0)] else [].
 
-  Definition snapshot (r : run_st g) (h0 : list hentry) (next : option Z) : tr :=
+  (* recover() called twice, on the two halves of the history (every third crash point) *)
+  Definition in_parts (r : run_st g) (c : nat) : list tr :=
+    let h := r_hist g r in
+    if ((2 <=? length h) && (c mod 3 =? 0))%nat then
+      let k := (length h / 2)%nat in
+      [e_obs (obs g (recover g (recover g (init g) (firstn k h)) (skipn k h)))]
+    else [].
+
+  Definition snapshot (r : run_st g) (h0 : list hentry) (next : option Z) (c : nat) : tr :=
     let rec := recovered g (r_hist g r) in
     L [e_obs (obs g (r_st g r)); e_obs (obs g rec);
        elist eZ (if det then continue_from g 5 (r_st g r) else []);
        elist eZ (if det then continue_from g 5 rec else []);
        L (undelivered r next);
-       L (proposal_time r h0)].
-  Fixpoint sim (evs : list Z) (r : run_st g) (h0 : list hentry) : list tr :=
-    snapshot r h0 (hd_error evs) ::
+       L (proposal_time r h0);
+       L (in_parts r c)].
+  Fixpoint sim (evs : list Z) (r : run_st g) (h0 : list hentry) (c : nat) : list tr :=
+    snapshot r h0 (hd_error evs) c ::
     match evs with
     | [] => []
-    | e :: rest => let r' := step g reward_of r e in if r_ok g r' then sim rest r' (hist0_step h0 r e r') else []
+    | e :: rest => let r' := step g reward_of r e in if r_ok g r' then sim rest r' (hist0_step h0 r e r') (S c) else []
     end.
 End Sim.
 
@@ -573,7 +582,7 @@ Definition run (c : tr) : tr :=
       match d_alg 20 a, dZ m, dlist dZ rewards, dlist dZ evs with
       | Some a', Some m', Some rw, Some es =>
           let g := denote m' a' in
-          L (sim g (fun v => nth (Z.to_nat v) rw 0) (deterministic a') es (run_init g) [])
+          L (sim g (fun v => nth (Z.to_nat v) rw 0) (deterministic a') es (run_init g) [] 0)
       | _, _, _, _ => ebad
       end
   | _ => ebad
